@@ -60,6 +60,7 @@ func main() {
 	timed("secSmoothers", func() { secSmoothers(r) })
 	timed("secFlattenBase", func() { secFlattenBase(r) })
 	timed("secARAP", func() { secARAP(r) })
+	timed("secARAPSeq", func() { secARAPSeq(r) })
 	timed("sec2D", func() { sec2D(r) })
 	timed("secChains", func() { secChains(r) })
 	<-colinearDone
